@@ -309,8 +309,8 @@ func modelStream(m Method, s Script, c Call) Pred {
 
 // MatchOpt tunes Match.
 type MatchOpt struct {
-	RequestID      string // non-empty: every log and error batch must echo it ...
-	CheckRequestID bool   // ... when this is set
+	RequestID      string // the call's request id ("" = the client sent none) ...
+	CheckRequestID bool   // ... when set, every log and error batch must carry exactly it (absent == "")
 	SkipSchema     bool   // do not compare stream schema fingerprints
 }
 
@@ -351,7 +351,9 @@ func batchMatches(p PBatch, g wire.Batch, o MatchOpt) string {
 	default:
 		return "model produced an unsupported batch kind " + string(p.Kind)
 	}
-	if o.CheckRequestID && o.RequestID != "" && p.Kind != wire.KindData {
+	if o.CheckRequestID && p.Kind != wire.KindData {
+		// with an empty client id there is nothing to echo: the key may be
+		// absent or empty, but it must not carry somebody else's id
 		if g.RequestID != o.RequestID {
 			return fmt.Sprintf("%s batch %q does not echo request id %q (got %q, present=%v)", g.Kind, g.Message, o.RequestID, g.RequestID, g.HasReqID)
 		}
